@@ -17,7 +17,7 @@ import recipes as RC
 import skrun
 import vlib
 
-PROPS = ['Props/C17.v']
+PROPS = ['Props/C17.v', 'Props/E2E.v']   # E2E: the end-to-end composition
 
 
 def make_case(rng, base, idx, multi):
@@ -218,6 +218,11 @@ def run(chk):
                       witness=False)
     chk.coverage['distinct_nontrivial'] = len(nontrivial)
     chk.coverage['traces_validated_against_impl'] = len(cases)
+    # the end-to-end composition (Props/E2E.v): real single-file runs against
+    # the COMPOSED model (seek position -> lines -> per-definition results ->
+    # statistics) evaluated in Coq on the file's bytes
+    import e2e
+    e2e.run_e2e(chk, 50 if chk.quick else 300)
     chk.assumptions += [
         "lines read per file are computed by an independent Python reference "
         "of the file-level constraint's position (first line with timestamp "
